@@ -389,7 +389,7 @@ Proof.
   rewrite !prefixb_spec. intros [r ->]. exists (r ++ b). rewrite app_assoc. reflexivity.
 Qed.
 
-Lemma WOK_verdict v x : not_allow_v v ->
+Lemma WOK_verdict v : not_allow_v v ->
   WOK v (fst (serialize (verdict_resp v)) ++ snd (serialize (verdict_resp v)), true) = true.
 Proof.
   intro NA. unfold WOK.
@@ -443,7 +443,7 @@ Proof.
     split.
     + rewrite invocs_app, send_invocs. slia.
     + intros HL TR S. rewrite send_response_eq. unfold muted. cbn [tr sent set_pending s1]. rewrite TR, S. cbn [negb orb fst snd].
-      rewrite wire_resp_acts_app. apply (WOK_verdict v s NA).
+      rewrite wire_resp_acts_app. apply (WOK_verdict v NA).
   - destruct (Q1_step s e i k Q NE) as [Ea [Q' S']].
     assert (FV' : Spec.C04.first_verdict r [i] (run (fst (step s e)) r) = Some v).
     { rewrite Ea in FV. cbn [amw_ids flat_map app] in FV. destruct e as [| |j o|]; try exact FV.
